@@ -16,6 +16,16 @@ fn err_code(e: &Error) -> u64 {
 }
 
 fn item(id: &str, value: Value, digest: i32) -> Tag24<IssuerSignedItem> {
+    // every other item is one a third-party issuer encoded (another member order, a wider digestID head): the
+    // library's own encoder would write it differently, so "returned unchanged" is observable on its bytes
+    if digest % 2 == 0 {
+        let mut inner = vec![0xa4];
+        inner.extend(crate::runner::to_bytes(&text("elementIdentifier"))); inner.extend(crate::runner::to_bytes(&text(id)));
+        inner.extend(crate::runner::to_bytes(&text("elementValue"))); inner.extend(crate::runner::to_bytes(&value));
+        inner.extend(crate::runner::to_bytes(&text("digestID"))); inner.extend([0x19, ((digest >> 8) & 0xff) as u8, (digest & 0xff) as u8]);
+        inner.extend(crate::runner::to_bytes(&text("random"))); inner.extend(crate::runner::to_bytes(&bytes(&vec![digest as u8; 16])));
+        if let Ok(t) = Tag24::<IssuerSignedItem>::from_bytes(inner) { return t; }
+    }
     Tag24::new(IssuerSignedItem {
         digest_id: DigestId::new(digest),
         random: ByteStr::from(vec![digest as u8; 16]),
